@@ -1,0 +1,21 @@
+//go:build !verif
+
+// No-op twins of the verification hook H6 (see verif_hook.go). In normal
+// builds the calls inserted in EVMInterpreter.Run compile to nothing.
+package vm
+
+import "com.tuntun.rangers/node/src/middleware/types"
+
+func verifFrameEnter(in *EVMInterpreter, contract *Contract, input []byte, readOnly bool) {}
+
+func verifFrameExit(in *EVMInterpreter, contract *Contract, input []byte, readOnly bool, ret *[]byte, logs *[]*types.Log, err *error) {
+}
+
+func verifStepFetched(in *EVMInterpreter, pc uint64, op OpCode, contract *Contract, stack *Stack, mem *Memory) {
+}
+
+func verifStepCharged(in *EVMInterpreter, pc uint64, op OpCode, cost uint64, contract *Contract, stack *Stack, mem *Memory) {
+}
+
+func verifStepDone(in *EVMInterpreter, pc uint64, op OpCode, cost uint64, contract *Contract, stack *Stack, mem *Memory, res []byte, err error) {
+}
